@@ -54,3 +54,5 @@ Definition trav_gwf_core (c : trav_case) : bool := let '(g, _, _, _) := c in gwf
 Definition trav_simple (c : trav_case) : bool := let '(g, _, _, _) := c in simple_b g.
 (* the hypotheses of C02_no_path_errors hold of the exported graph *)
 Definition trav_pwf (c : trav_case) : bool := let '(g, _, _, _) := c in pwf_b g.
+(* the hypotheses of C03_present_setup_never_executed hold for every ordinary stateful test with the global scope *)
+Definition trav_cls (c : trav_case) : bool := let '(g, _, _, _) := c in cls_all_b g.
